@@ -25,10 +25,15 @@ abbrev c0 : Cfg := { rootCtx := [] }
 
 /-- Full-strength statement: for every environment in the fragment `EnvOK` — layouts and block
     bodies made of text, variables, `set`, macros, block tags, `self.name()` (emitted or
-    captured), `super()` (emitted or captured, inside blocks), required blocks, conditional
-    `extends` (executed or not, with anything in front of and behind it), `include` (names,
-    lists, `ignore missing`), `import`, `from … import`, loops and macro calls; block references
-    inside a block go to higher-numbered blocks (well-founded nesting) — for every render context,
+    captured), `super()` (emitted or captured; **anywhere**: in block bodies, in macro bodies,
+    and outside of blocks — where, in an included chain, the engine resolves it against the name
+    of the block the include tag stands in), required blocks, conditional `extends` (executed or
+    not, with anything in front of and behind it), `include` / `import` / `from … import` of
+    **any argument value** (a name, a non-string scalar, a list / tuple / lazily evaluated
+    iterable / one-shot iterator / map / enumerable object of candidates, an object that cannot
+    be iterated; `ignore missing`), loops, `{% autoescape %}` blocks and macro calls (whose
+    bodies may reference blocks and include / import like any other statement list); block
+    references inside a block go to higher-numbered blocks (well-founded nesting) — for every render context,
     every template and **every amount of fuel** (so: chains and include nests of any depth,
     cyclic ones and runs that hit the recursion limit included) the driver returns exactly what
     the spec returns: the same output or the same error chain. -/
@@ -73,7 +78,7 @@ example : specRender exEnv c0 10 0 = .ok ["<pre0>", "<top>", "<c0>", "<r0>", "<m
 /-! an include of a template that is an inheritance chain of its own and fills a required block;
     the includer's block `b0` does not leak into it -/
 def exEnv2 : Env :=
-  [ { layout := [.callBlock 0, .incl [9, 1] false], blocks := [(0, [.text "<a0>"])] },
+  [ { layout := [.callBlock 0, .incl (.names [9, 1]) false], blocks := [(0, [.text "<a0>"])] },
     { layout := [.extends true 2, .callBlock 0], blocks := [(0, [.text "<i0>"])] },
     { layout := [.text "<q:", .callBlock 0, .text ">"], blocks := [(0, [.required])] } ]
 
@@ -220,8 +225,10 @@ example : ∃ st' l, loadBlocks exEnv 1 (initSt exEnv[0]) = .ok (st', l) ∧ st'
 /-- rendering terminates on its own: the recursion limit (`outer_stack_depth` + frames against
     `recursion_limit`, an include costing `INCLUDE_RECURSION_COST ≥ 1`) bounds every nest of
     blocks, `super()`s, includes, imports, loops and macro calls, and an inheritance chain has at
-    most `|env|` links; so with `(LIMIT - 1)·(|env| + 3) + |env| + 2` levels of model fuel — or
-    more — the fuel is never what stops a render: the result is the output or a genuine error
+    most `|env|` links; `{% autoescape %}` blocks nested directly in one another cost the engine no
+    depth and the model one level of fuel each (followed up to `AE_NEST_MAX` deep); so with
+    `renderFuel env = (LIMIT - 1)·(|env| + 3 + AE_NEST_MAX) + |env| + 2 + AE_NEST_MAX` levels of
+    model fuel — or more — the fuel is never what stops a render: the result is the output or a genuine error
     (cycle, missing template, recursion limit, …). -/
 theorem rendering_terminates (env : Env) (ctx : Cfg) (henv : EnvOK env) (main fuel : Nat)
     (hfuel : renderFuel env ≤ fuel) :
@@ -232,7 +239,7 @@ theorem rendering_terminates (env : Env) (ctx : Cfg) (henv : EnvOK env) (main fu
   | none => intro e he; cases he; simp
   | some T =>
     have hl : 0 + Vars.init.length ≤ LIMIT := by decide
-    have := (term_all env ctx fuel).chain [main] false 0 T.ae T.layout Vars.init (by simp) (by simp) (by simp) hl
+    have := (term_all env ctx fuel).chain [main] none false 0 T.ae T.layout Vars.init (by simp) (by simp) (by simp) hl
       (by have : Vars.init.length = 1 := rfl; simpa [renderFuel, this] using hfuel)
     intro e he
     simp only [] at he
@@ -241,7 +248,7 @@ theorem rendering_terminates (env : Env) (ctx : Cfg) (henv : EnvOK env) (main fu
     | none =>
     rw [hL] at he
     simp only [] at he
-    cases hr : (specAll env ctx fuel).chain [main] false 0 T.ae T.layout Vars.init with
+    cases hr : (specAll env ctx fuel).chain [main] none false 0 T.ae T.layout Vars.init with
     | error e' => rw [hr] at he; cases he; exact this.1 _ hr
     | ok r => rw [hr] at he; cases he
 
@@ -260,7 +267,7 @@ theorem cycle_is_detected_error (env : Env) (ctx : Cfg) (henv : EnvOK env)
   have hT : env[main]? = some env[main] := List.getElem?_eq_getElem hmain
   rw [hT]
   simp only [hload _ (List.getElem_mem hmain)]
-  have := cycle_detected_spec env ctx hall hload env.length fuel [main] false 0 env[main].ae env[main].layout Vars.init
+  have := cycle_detected_spec env ctx hall hload env.length fuel [main] none false 0 env[main].ae env[main].layout Vars.init
     (by simp) (by simp) (by simp) (by simp) hfuel (hall _ (List.getElem_mem hmain))
   rcases this with h | h <;> simp [h]
 
@@ -284,7 +291,7 @@ theorem include_cycle_errors (env : Env) (ctx : Cfg) (henv : EnvOK env)
     (renderFuel env ≤ fuel →
       ∃ j, render env ctx fuel main = .error (List.replicate j Kind.badInclude ++ [.invalidOperation])) := by
   have hT : env[main]? = some env[main] := List.getElem?_eq_getElem hmain
-  obtain ⟨e, he, hie⟩ := include_cycle_spec env ctx hall hload fuel main hmain _ hT false 0 env[main].ae Vars.init
+  obtain ⟨e, he, hie⟩ := include_cycle_spec env ctx hall hload fuel main hmain _ hT none false 0 env[main].ae Vars.init
   have hr : render env ctx fuel main = .error e := by
     rw [blocks_refine_spec env ctx fuel main henv]
     unfold specRender
@@ -298,8 +305,8 @@ theorem include_cycle_errors (env : Env) (ctx : Cfg) (henv : EnvOK env)
   · exact absurd (by rw [hjk]; simp) hno
 
 def incCycEnv : Env :=
-  [ { layout := [.text "<a>", .incl [1] true, .text "<z>"], blocks := [] },
-    { layout := [.incl [0] false], blocks := [] } ]
+  [ { layout := [.text "<a>", .incl (.name 1) true, .text "<z>"], blocks := [] },
+    { layout := [.incl (.name 0) false], blocks := [] } ]
 
 example : EnvOK incCycEnv := by decide
 example : ∀ T ∈ incCycEnv, includesAfterText incCycEnv T.layout = true := by decide
@@ -321,8 +328,8 @@ example : render
 theorem missing_is_error_not_truncation (rd : Rd) (rec : Rec) (st : St) :
     (∀ t rest, t ∉ st.loaded → rd.env.length ≤ t →
         stepItems rd rec none (.extends true t :: rest) st = .error [.templateNotFound]) ∧
-    (∀ cur disc ign outer names, (∀ m ∈ names, rd.env[m]? = none) →
-        performInclude rd.env rec cur disc ign outer names false st =
+    (∀ cur disc ign outer (names : List Nat), (∀ m ∈ names, rd.env[m]? = none) →
+        performInclude rd.env rec cur disc ign outer (names.map some) false st =
           if !names.isEmpty && !ign then .error [.templateNotFound] else .ok ([], st)) := by
   refine ⟨fun t rest h1 h2 => extends_missing_error rd rec t rest st h1 h2, ?_⟩
   intro cur disc ign outer names h
@@ -331,9 +338,9 @@ theorem missing_is_error_not_truncation (rd : Rd) (rec : Rec) (st : St) :
 
 example : render [ { layout := [.text "<a>", .extends true 7], blocks := [] } ] c0 10 0
     = .error [.templateNotFound] := by decide +kernel
-example : render [ { layout := [.text "<a>", .incl [7, 8] false, .text "<z>"], blocks := [] } ] c0 10 0
+example : render [ { layout := [.text "<a>", .incl (.names [7, 8]) false, .text "<z>"], blocks := [] } ] c0 10 0
     = .error [.templateNotFound] := by decide +kernel
-example : render [ { layout := [.text "<a>", .incl [7, 8] true, .text "<z>"], blocks := [] } ] c0 10 0
+example : render [ { layout := [.text "<a>", .incl (.names [7, 8]) true, .text "<z>"], blocks := [] } ] c0 10 0
     = .ok ["<a>", "<z>"] := by decide +kernel
 
 /-- an include renders the **first existing** name of its list: missing names in front of it are
@@ -346,9 +353,9 @@ example : render [ { layout := [.text "<a>", .incl [7, 8] true, .text "<z>"], bl
     do not reach the includer's macros, its own macros get a closure of their own) and attached
     again afterwards. -/
 theorem include_first_existing (env : Env) (rec : Rec) (cur : Option Nat) (disc ign : Bool) (outer : Nat)
-    (missing more : List Nat) (t : Nat) (T : Template)
+    (missing : List Nat) (more : List Cand) (t : Nat) (T : Template)
     (hmiss : ∀ m ∈ missing, env[m]? = none) (hT : env[t]? = some T) (hL : T.loadErr = none) (st : St) :
-    performInclude env rec cur disc ign outer (missing ++ t :: more) false st =
+    performInclude env rec cur disc ign outer (missing.map some ++ some t :: more) false st =
       if outer + INCLUDE_COST + st.frames.length > LIMIT then .error [.invalidOperation]
       else
         match rec cur disc false (outer + INCLUDE_COST) T.ae T.layout
@@ -365,13 +372,13 @@ theorem include_first_existing (env : Env) (rec : Rec) (cur : Option Nat) (disc 
     an html page escapes `{{ v0 }}` itself while the text note it includes does not, a text mail
     including an html card gets the card escaped, and an `{% autoescape %}` block around the
     include tag does not leak into the included template -/
-example : render [ { layout := [.emitVar 0, .incl [1] false], blocks := [], ae := .html },
+example : render [ { layout := [.emitVar 0, .incl (.name 1) false], blocks := [], ae := .html },
                    { layout := [.emitVar 0], blocks := [], ae := .none } ] { rootCtx := [(0, .str "a<b")] } 8 0
     = .ok ["a&lt;b", "a<b"] := by decide +kernel
-example : render [ { layout := [.emitVar 0, .incl [1] false], blocks := [], ae := .none },
+example : render [ { layout := [.emitVar 0, .incl (.name 1) false], blocks := [], ae := .none },
                    { layout := [.emitVar 0], blocks := [], ae := .html } ] { rootCtx := [(0, .str "a<b")] } 8 0
     = .ok ["a<b", "a&lt;b"] := by decide +kernel
-example : render [ { layout := [.autoesc .html [.emitVar 0, .incl [1] false]], blocks := [], ae := .none },
+example : render [ { layout := [.autoesc .html [.emitVar 0, .incl (.name 1) false]], blocks := [], ae := .none },
                    { layout := [.emitVar 0], blocks := [], ae := .json } ] { rootCtx := [(0, .str "a<b")] } 8 0
     = .ok ["a&lt;b", "\"a<b\""] := by decide +kernel
 /-- … whereas the parent's layout reached through `extends`, block bodies and `super()` keep the
@@ -386,20 +393,20 @@ example : render [ { layout := [.extends true 1, .callBlock 0], blocks := [(0, [
     include, with or without `ignore missing`, whatever names precede (missing ones) or follow
     it; the next candidate is *not* tried and nothing is rendered as a success. -/
 theorem include_ignore_missing_forgives_only_missing (env : Env) (rec : Rec) (cur : Option Nat)
-    (disc ign : Bool) (outer : Nat) (missing more : List Nat) (t : Nat) (T : Template) (k : LoadErr)
+    (disc ign : Bool) (outer : Nat) (missing : List Nat) (more : List Cand) (t : Nat) (T : Template) (k : LoadErr)
     (hmiss : ∀ m ∈ missing, env[m]? = none) (hT : env[t]? = some T) (hL : T.loadErr = some k) (st : St) :
-    performInclude env rec cur disc ign outer (missing ++ t :: more) false st = .error [loadErrKind t k] :=
+    performInclude env rec cur disc ign outer (missing.map some ++ some t :: more) false st = .error [loadErrKind t k] :=
   performInclude_load_error env rec cur disc ign outer missing more t T k hmiss hT hL false st
 
 /-- `broken` exists but does not compile, `fallback` is fine: with and without `ignore missing`
     the include is the syntax error of `broken`; a broken parent of `extends` and a broken
     `import` likewise -/
 def brokenEnv : Env :=
-  [ { layout := [.text "<a>", .incl [9, 1, 2] true, .text "<z>"], blocks := [] },
+  [ { layout := [.text "<a>", .incl (.names [9, 1, 2]) true, .text "<z>"], blocks := [] },
     { layout := [], blocks := [], loadErr := some .syntax },
     { layout := [.text "<fallback>"], blocks := [] },
     { layout := [.extends true 1], blocks := [] },
-    { layout := [.importAs 1 5], blocks := [] } ]
+    { layout := [.importAs (.name 1) 5], blocks := [] } ]
 
 example : render brokenEnv c0 8 0 = .error [.syntaxError 1] := by decide +kernel
 example : render brokenEnv c0 8 3 = .error [.syntaxError 1] := by decide +kernel
@@ -407,34 +414,37 @@ example : render brokenEnv c0 8 4 = .error [.syntaxError 1] := by decide +kernel
 example : render brokenEnv c0 8 1 = .error [.syntaxError 1] := by decide +kernel
 
 def incEnv : Env :=
-  [ { layout := [.setVar 1 "L", .incl [9, 1, 2] false], blocks := [] },
+  [ { layout := [.setVar 1 "L", .incl (.names [9, 1, 2]) false], blocks := [] },
     { layout := [.text "<x:", .emitVar 1, .text ">"], blocks := [] },
     { layout := [.text "<y>"], blocks := [] } ]
 
 example : render incEnv c0 10 0 = .ok ["<x:", "L", ">"] := by decide +kernel
 
 /-- `import` / `from … import` expose exactly the imported template's top-level assignments.
-    For a module template (text, `set`, macro definitions at top level — `assigns` lists what
-    they leave behind): `{% import t as v %}` binds `v` to a module whose entries are exactly
+    The argument `a` may be a name or any iterable of candidates (`hc`, `hmiss`: `t` is its first
+    existing candidate).  For a module template (text, `set`, macro definitions at top level —
+    `assigns` lists what they leave behind): `{% import t as v %}` binds `v` to a module whose entries are exactly
     those assignments, `{% from t import name as alias %}` binds `alias` to the module's value of
     `name` and to *undefined* when the module does not assign `name` — independently of the
     importer's frames and render context — and neither changes anything else in the state.
     (`hd`: the import stays below the recursion limit.) -/
 theorem import_exports_toplevel (env : Env) (ctx : Cfg) (f : Nat) (cur : Option Nat) (d0 e0 : Bool)
-    (outer : Nat) (ae : AE) (parent : Option (List Item)) (t : Nat) (T : Template) (hT : env[t]? = some T)
+    (outer : Nat) (ae : AE) (parent : Option (List Item)) (a : Arg) (missing : List Nat) (more : List Cand)
+    (t : Nat) (T : Template) (hc : a.cands = missing.map some ++ some t :: more)
+    (hmiss : ∀ m ∈ missing, env[m]? = none) (hT : env[t]? = some T)
     (hL : T.loadErr = none) (hs : T.layout.all Item.isAssign = true) (rest : List Item) (st : St)
     (hwf : st.frames.WF) (hd : outer + INCLUDE_COST + (st.frames.length + 1) ≤ LIMIT) :
-    (∀ v, stepItems ⟨env, ctx, cur, d0, e0, outer, ae⟩ (evalImpl env ctx (f + 1)) parent (.importAs t v :: rest) st =
+    (∀ v, stepItems ⟨env, ctx, cur, d0, e0, outer, ae⟩ (evalImpl env ctx (f + 1)) parent (.importAs a v :: rest) st =
         stepItems ⟨env, ctx, cur, d0, e0, outer, ae⟩ (evalImpl env ctx (f + 1)) parent rest
           { st with frames := store st.frames v (.module (dedupKeys (assigns T.layout []))) }) ∧
     (∀ name alias,
-        stepItems ⟨env, ctx, cur, d0, e0, outer, ae⟩ (evalImpl env ctx (f + 1)) parent (.fromImport t name alias :: rest) st =
+        stepItems ⟨env, ctx, cur, d0, e0, outer, ae⟩ (evalImpl env ctx (f + 1)) parent (.fromImport a name alias :: rest) st =
         stepItems ⟨env, ctx, cur, d0, e0, outer, ae⟩ (evalImpl env ctx (f + 1)) parent rest
           { st with frames := store st.frames alias ((lookupVal name (assigns T.layout [])).getD .undef) }) ∧
     (∀ name, T.layout.all (fun it => !assignsVar name it) = true →
         lookupVal name (assigns T.layout []) = none) := by
-  refine ⟨fun v => importAs_step env ctx f cur d0 e0 outer ae parent t v T hT hL hs rest st hwf hd,
-    fun name alias => fromImport_step env ctx f cur d0 e0 outer ae parent t name alias T hT hL hs rest st hwf hd, ?_⟩
+  refine ⟨fun v => importAs_step env ctx f cur d0 e0 outer ae parent a missing more t v T hc hmiss hT hL hs rest st hwf hd,
+    fun name alias => fromImport_step env ctx f cur d0 e0 outer ae parent a missing more t name alias T hc hmiss hT hL hs rest st hwf hd, ?_⟩
   intro name h
   rw [lookup_assigns_other name T.layout [] h]
   rfl
@@ -446,21 +456,21 @@ theorem import_exports_toplevel (env : Env) (ctx : Cfg) (f : Nat) (cur : Option 
     inheritance chain of its own into the fresh frame. -/
 theorem import_of_extending_template (env : Env) (ctx : Cfg) (henv : EnvOK env) (f : Nat)
     (cur : Option Nat) (d0 e0 : Bool) (outer : Nat) (ae : AE) (parent : Option (List Item))
-    (t p v : Nat) (T P : Template) (pre post : List Item)
+    (a : Arg) (t p v : Nat) (T P : Template) (pre post : List Item) (hc : a.cands = [some t])
     (hT : env[t]? = some T) (hP : env[p]? = some P) (hLT : T.loadErr = none) (hLP : P.loadErr = none)
     (hl : T.layout = pre ++ .extends true p :: post)
     (hpre : pre.all Item.isAssign = true) (hpost : post.all Item.isAssign = true)
     (hpl : P.layout.all Item.isAssign = true) (rest : List Item) (st : St) (hwf : st.frames.WF)
     (hd : outer + INCLUDE_COST + (st.frames.length + 1) ≤ LIMIT) :
-    stepItems ⟨env, ctx, cur, d0, e0, outer, ae⟩ (evalImpl env ctx (f + 2)) parent (.importAs t v :: rest) st =
+    stepItems ⟨env, ctx, cur, d0, e0, outer, ae⟩ (evalImpl env ctx (f + 2)) parent (.importAs a v :: rest) st =
       stepItems ⟨env, ctx, cur, d0, e0, outer, ae⟩ (evalImpl env ctx (f + 2)) parent rest
         { st with frames := (store st.frames v
             (Val.module (dedupKeys (assigns P.layout (assigns post (assigns pre [])))))) } :=
-  importAs_extending_step env ctx henv f cur d0 e0 outer ae parent t p v T P pre post hT hP hLT hLP hl hpre hpost hpl
+  importAs_extending_step env ctx henv f cur d0 e0 outer ae parent a t p v T P pre post hc hT hP hLT hLP hl hpre hpost hpl
     rest st hwf hd
 
 example : render
-    [ { layout := [.importAs 1 8, .emitAttr 8 2, .emitAttr 8 3, .emitAttr 8 4], blocks := [] },
+    [ { layout := [.importAs (.name 1) 8, .emitAttr 8 2, .emitAttr 8 3, .emitAttr 8 4], blocks := [] },
       { layout := [.setVar 2 "c2", .extends true 2, .setVar 3 "c3"], blocks := [] },
       { layout := [.setVar 4 "p4", .setVar 2 "p2"], blocks := [] } ] c0 10 0
     = .ok ["p2", "c3", "p4"] := by decide +kernel
@@ -470,11 +480,11 @@ def modT : Template :=
 
 /-- the importer's own `v3` (local and in the render context) is not what `m.v3` or
     `from m import v3` yield; the module's last assignment of `v2` and its macro are -/
-example : render [ { layout := [.setVar 3 "mine", .importAs 1 8, .emitAttr 8 3, .text "|", .emitAttr 8 2],
+example : render [ { layout := [.setVar 3 "mine", .importAs (.name 1) 8, .emitAttr 8 3, .text "|", .emitAttr 8 2],
                      blocks := [] }, modT ] { rootCtx := [(3, .str "ctx")] } 10 0 = .ok ["|", "b"] := by decide +kernel
-example : render [ { layout := [.fromImport 1 3 7, .text "[", .emitVar 7, .text "]"], blocks := [] }, modT ]
+example : render [ { layout := [.fromImport (.name 1) 3 7, .text "[", .emitVar 7, .text "]"], blocks := [] }, modT ]
     { rootCtx := [(3, .str "ctx")] } 10 0 = .ok ["[", "]"] := by decide +kernel
-example : render [ { layout := [.fromImport 1 4 6, .callVar 6], blocks := [] }, modT ]
+example : render [ { layout := [.fromImport (.name 1) 4 6, .callVar 6], blocks := [] }, modT ]
     { rootCtx := [(3, .str "ctx")] } 10 0 = .ok ["<mac>"] := by decide +kernel
 
 /-- Macro closures across an include (`Context::take_closure` … `reset_closure` in
@@ -498,7 +508,7 @@ example : render [ { layout := [.fromImport 1 4 6, .callVar 6], blocks := [] }, 
        did not exist before) are not reached by anything the includer assigns or encloses
        afterwards. -/
 theorem include_keeps_closures_apart (env : Env) (ctx : Cfg) (fuel : Nat) (henv : EnvOK env)
-    (cur : Option Nat) (disc ign : Bool) (outer : Nat) (names : List Nat) (tried : Bool)
+    (cur : Option Nat) (disc ign : Bool) (outer : Nat) (names : List Cand) (tried : Bool)
     (st st' : St) (o : List String) (hwf : st.frames.WF)
     (hcl : ∀ c, st.frames.topClosure = some c → c < st.frames.heap.length)
     (h : performInclude env (evalImpl env ctx fuel) cur disc ign outer names tried st = .ok (o, st')) :
@@ -509,12 +519,12 @@ theorem include_keeps_closures_apart (env : Env) (ctx : Cfg) (fuel : Nat) (henv 
         (∀ v x, (store st'.frames v x).heap[i]? = st'.frames.heap[i]?) ∧
         (∀ w, (enclose ctx.rootCtx st'.frames w).heap[i]? = st'.frames.heap[i]?)) := by
   rw [include_sim (hyp_all env ctx henv fuel) henv] at h
-  cases hs : specInclude env (specAll env ctx fuel) disc ign outer names tried st.frames with
+  cases hs : specInclude env (specAll env ctx fuel) cur disc ign outer names tried st.frames with
   | error e => rw [hs] at h; cases h
   | ok q =>
     obtain ⟨o', b⟩ := q
     rw [hs] at h
-    obtain ⟨hold, htop, _, _, _⟩ := specInclude_apart env ctx fuel disc ign outer names tried st.frames b o' hwf hs
+    obtain ⟨hold, htop, _, _, _⟩ := specInclude_apart env ctx fuel cur disc ign outer names tried st.frames b o' hwf hs
     simp only [liftS] at h
     cases h
     refine ⟨fun c w hc => by rw [hold c hc], htop, ?_⟩
@@ -535,20 +545,356 @@ example : (initSt { layout := [], blocks := [] }).frames.WF ∧
 
 /-- the included file reassigns `v1`: the includer's macro `v5` (free variable `v1`) still sees
     the includer's value, although the includer itself now sees the new one -/
-example : render [ { layout := [.setVar 1 "a", .defMacroV 5 1, .incl [1] false, .callVar 5, .emitVar 1], blocks := [] },
+example : render [ { layout := [.setVar 1 "a", .defMacroV 5 1, .incl (.name 1) false, .callVar 5, .emitVar 1], blocks := [] },
                    { layout := [.setVar 1 "b"], blocks := [] } ] c0 10 0
     = .ok ["<m5:a>", "b"] := by decide +kernel
 /-- vice versa: the included file's macro `v6` keeps seeing the included file's value when the
     includer reassigns `v1` after the include -/
-example : render [ { layout := [.incl [1] false, .setVar 1 "c", .callVar 6, .emitVar 1], blocks := [] },
+example : render [ { layout := [.incl (.name 1) false, .setVar 1 "c", .callVar 6, .emitVar 1], blocks := [] },
                    { layout := [.setVar 1 "b", .defMacroV 6 1], blocks := [] } ] c0 10 0
     = .ok ["<m6:b>", "c"] := by decide +kernel
 /-- both at once, with calls on both sides of the tag: inside the included file each macro sees
     its own file's `v1`; after the include the includer's closure is attached again, so its own
     later assignment does reach its own macro -/
-example : render [ { layout := [.setVar 1 "a", .defMacroV 5 1, .incl [1] false, .setVar 1 "c", .callVar 5, .callVar 6],
+example : render [ { layout := [.setVar 1 "a", .defMacroV 5 1, .incl (.name 1) false, .setVar 1 "c", .callVar 5, .callVar 6],
                      blocks := [] },
                    { layout := [.setVar 1 "b", .defMacroV 6 1, .callVar 5, .callVar 6], blocks := [] } ] c0 10 0
     = .ok ["<m5:a>", "<m6:b>", "<m5:c>", "<m6:b>"] := by decide +kernel
+
+/-! ## the argument of `include` / `import` / `from … import`
+
+`perform_include` receives the *value* of the expression behind the tag (`Arg`): a string, some
+other primitive, or an object — a list literal, a tuple, a `Vec` from the context (`ObjectRepr::Seq`),
+a slice, `|reverse`, `Value::make_iterable`, a one-shot iterator, a repeated list
+(`ObjectRepr::Iterable`), a map (`ObjectRepr::Map`: its keys), a function or plain object that
+cannot be iterated.  The candidates, the selection among them and what happens when nothing is
+selected are functions of the model (`choices`, `select`, `includeTemplate`); `choices` and the
+tail condition follow tables regenerated from `vm/mod.rs`. -/
+
+/-- The candidates are read off the value of the argument: a value that can be iterated yields
+    its elements in iteration order **whatever kind of object carries them**; a value that is
+    not an object is one name; an object that cannot be iterated is one name too (which is not
+    a string, hence an error) — it is never "no candidates".  `choices` interprets the shape of
+    the Rust expression as the extractor read it off the sources (which `ObjectRepr`s reach
+    `try_iter()`, what the fallback arm is): an added filter on the object kind makes this
+    theorem false.  The model's `ORepr` covers exactly the variants of `ObjectRepr`. -/
+theorem include_candidates_any_iterable :
+    (∀ (r : ORepr) (items : List Cand), choices (.object r (some items)) = items) ∧
+    (∀ c, choices (.single c) = [c]) ∧
+    (∀ r, choices (.object r none) = [none]) ∧
+    (∀ a, choices a = a.cands) ∧
+    MJ.Gen.c06ObjectReprs = ORepr.all.map ORepr.name := by
+  refine ⟨fun r items => choices_eq_cands (.object r (some items)), fun c => choices_eq_cands (.single c),
+    fun r => choices_eq_cands (.object r none), choices_eq_cands, by decide⟩
+
+example : choices (.object .iterable (some [some 7, none, some 1])) = [some 7, none, some 1] := rfl
+example : choices (.object .map (some [some 1])) = choices (.object .seq (some [some 1])) := rfl
+
+/-- `perform_include` is "select, then act": walk the candidates in iteration order (`select`:
+    a missing name is skipped, the first name that exists decides, a candidate that is not a
+    string is an error where it is reached) and then render the selected template
+    (`includeTemplate`), return its load error, or — when no candidate exists — raise
+    `TemplateNotFound` exactly if something was looked up and `ignore missing` was not given
+    (the condition as extracted from the sources). -/
+theorem include_follows_selection (env : Env) (rec : Rec) (cur : Option Nat) (disc ign : Bool) (outer : Nat)
+    (cands : List Cand) (tried : Bool) (st : St) :
+    performInclude env rec cur disc ign outer cands tried st =
+      match select env cands tried with
+      | .render _ T => includeTemplate rec cur disc outer T st
+      | .loadError t k => .error [loadErrKind t k]
+      | .notAString => .error [.invalidOperation]
+      | .nothing tr => if tr && !ign then .error [.templateNotFound] else .ok ([], st) :=
+  performInclude_select env rec cur disc ign outer cands tried st
+
+/-- the selected template is the **first candidate that exists, in iteration order**, for every
+    kind of object that carries the candidates; conversely whatever is selected has only
+    missing names in front of it. -/
+theorem selection_is_first_existing (env : Env) :
+    (∀ (r : ORepr) (missing : List Nat) (more : List Cand) (t : Nat) (T : Template) (tried : Bool),
+      (∀ m ∈ missing, env[m]? = none) → env[t]? = some T → T.loadErr = none →
+      select env (choices (.object r (some (missing.map some ++ some t :: more)))) tried = .render t T) ∧
+    (∀ (cands : List Cand) (tried : Bool) (t : Nat) (T : Template), select env cands tried = .render t T →
+      ∃ (missing : List Nat) (more : List Cand), cands = missing.map some ++ some t :: more ∧
+        (∀ m ∈ missing, env[m]? = none) ∧ env[t]? = some T ∧ T.loadErr = none) := by
+  refine ⟨?_, fun cands tried t T h => select_render_inv env cands tried t T h⟩
+  intro r missing more t T tried hmiss hT hL
+  rw [choices_eq_cands]
+  exact select_first env missing more t T hmiss hT hL tried
+
+/-- the statement: `{% include arg %}` with an argument of **any** iterable kind whose first
+    existing candidate is `t` renders `t` (and continues with the rest of the statements) —
+    `ignore missing`, the candidates behind `t` and the object kind play no role. -/
+theorem include_renders_first_existing (rd : Rd) (rec : Rec) (parent : Option (List Item)) (r : ORepr)
+    (missing : List Nat) (more : List Cand) (t : Nat) (T : Template) (ign : Bool) (rest : List Item) (st : St)
+    (hmiss : ∀ m ∈ missing, rd.env[m]? = none) (hT : rd.env[t]? = some T) (hL : T.loadErr = none) :
+    stepItems rd rec parent (.incl (.object r (some (missing.map some ++ some t :: more))) ign :: rest) st =
+      (includeTemplate rec rd.cur (rd.disc0 || parent.isSome) rd.outer T st).andThen
+        (fun st' => stepItems rd rec parent rest st') := by
+  simp only [stepItems]
+  rw [performInclude_select, (selection_is_first_existing rd.env).1 r missing more t T false hmiss hT hL]
+
+/-- one environment, the same candidates `[t9 (missing), t1, t2]` carried by a list, a lazily
+    evaluated iterable, the keys of a map and an enumerable plain object: always `t1` -/
+def argEnv (a : Arg) (ign : Bool) : Env :=
+  [ { layout := [.text "<a>", .incl a ign, .text "<z>"], blocks := [] },
+    { layout := [.text "<one>"], blocks := [] },
+    { layout := [.text "<two>"], blocks := [] } ]
+
+example : render (argEnv (.object .seq (some [some 9, some 1, some 2])) false) c0 8 0 = .ok ["<a>", "<one>", "<z>"] := by decide +kernel
+example : render (argEnv (.object .iterable (some [some 9, some 1, some 2])) false) c0 8 0 = .ok ["<a>", "<one>", "<z>"] := by decide +kernel
+example : render (argEnv (.object .map (some [some 9, some 1, some 2])) true) c0 8 0 = .ok ["<a>", "<one>", "<z>"] := by decide +kernel
+example : render (argEnv (.object .plain (some [some 9, some 2, some 1])) false) c0 8 0 = .ok ["<a>", "<two>", "<z>"] := by decide +kernel
+/-- a candidate that is not a string is an error where it is reached, not before -/
+example : render (argEnv (.object .iterable (some [some 9, none, some 1])) true) c0 8 0 = .error [.invalidOperation] := by decide +kernel
+example : render (argEnv (.object .iterable (some [some 1, none])) false) c0 8 0 = .ok ["<a>", "<one>", "<z>"] := by decide +kernel
+/-- a value that is neither a string nor iterable is not a template name -/
+example : render (argEnv (.object .plain none) true) c0 8 0 = .error [.invalidOperation] := by decide +kernel
+example : render (argEnv (.single none) true) c0 8 0 = .error [.invalidOperation] := by decide +kernel
+
+/-- if **no candidate exists and something was asked for** — the argument yields at least one
+    candidate and all of them are names of missing templates — the include is
+    `TemplateNotFound`, unless `ignore missing` was given (then it renders nothing and changes
+    nothing); whatever kind of value carried the candidates. -/
+theorem include_nothing_exists (env : Env) (rec : Rec) (cur : Option Nat) (disc ign : Bool) (outer : Nat)
+    (a : Arg) (st : St) (hne : a.cands ≠ [])
+    (hall : ∀ c ∈ a.cands, ∃ m, c = some m ∧ env[m]? = none) :
+    performInclude env rec cur disc ign outer (choices a) false st =
+      if ign then .ok ([], st) else .error [.templateNotFound] := by
+  rw [choices_eq_cands, performInclude_select, select_all_missing env a.cands false hall]
+  have : a.cands.isEmpty = false := by
+    cases h : a.cands with
+    | nil => exact absurd h hne
+    | cons _ _ => rfl
+  cases ign <;> simp [this]
+
+example : render (argEnv (.object .iterable (some [some 9, some 8])) false) c0 8 0 = .error [.templateNotFound] := by decide +kernel
+example : render (argEnv (.object .iterable (some [some 9, some 8])) true) c0 8 0 = .ok ["<a>", "<z>"] := by decide +kernel
+example : render (argEnv (.name 9) false) c0 8 0 = .error [.templateNotFound] := by decide +kernel
+
+/-- **an include never succeeds without either rendering a candidate or being entitled to
+    skip.**  Whenever `perform_include` returns `Ok` for an argument `a`, one of three things is
+    the case: (1) a candidate was selected — the argument's candidates are missing names, then
+    the name of an existing, loadable template `t` — and the result *is* the result of rendering
+    `t`; (2) nothing was asked for: the argument is an iterable that yields no candidate (the
+    empty list), nothing is rendered, nothing changes; (3) `ignore missing` was given and every
+    candidate is the name of a missing template.  In particular an argument that yields
+    candidates is never skipped silently. -/
+theorem include_never_silently_skips (env : Env) (rec : Rec) (cur : Option Nat) (disc ign : Bool) (outer : Nat)
+    (a : Arg) (st st' : St) (o : List String)
+    (h : performInclude env rec cur disc ign outer (choices a) false st = .ok (o, st')) :
+    (∃ (missing : List Nat) (more : List Cand) (t : Nat) (T : Template),
+        a.cands = missing.map some ++ some t :: more ∧ (∀ m ∈ missing, env[m]? = none) ∧
+        env[t]? = some T ∧ T.loadErr = none ∧ includeTemplate rec cur disc outer T st = .ok (o, st')) ∨
+    (a.cands = [] ∧ o = [] ∧ st' = st) ∨
+    (ign = true ∧ a.cands ≠ [] ∧ (∀ c ∈ a.cands, ∃ m, c = some m ∧ env[m]? = none) ∧ o = [] ∧ st' = st) := by
+  rw [choices_eq_cands, performInclude_select] at h
+  cases hs : select env a.cands false with
+  | render t T =>
+    rw [hs] at h
+    obtain ⟨missing, more, h1, h2, h3, h4⟩ := select_render_inv env a.cands false t T hs
+    exact Or.inl ⟨missing, more, t, T, h1, h2, h3, h4, h⟩
+  | loadError t k => rw [hs] at h; cases h
+  | notAString => rw [hs] at h; cases h
+  | nothing tr =>
+    rw [hs] at h
+    obtain ⟨h1, h2⟩ := select_nothing_inv env a.cands false tr hs
+    simp only [Bool.false_or] at h2
+    cases hc : a.cands with
+    | nil =>
+      rw [hc] at h2
+      subst h2
+      simp only [List.isEmpty_nil, Bool.not_true, Bool.false_and, Bool.false_eq_true, if_false,
+        Except.ok.injEq, Prod.mk.injEq] at h
+      exact Or.inr (Or.inl ⟨rfl, h.1.symm, h.2.symm⟩)
+    | cons c cs =>
+      rw [hc] at h2
+      subst h2
+      cases ign with
+      | false => simp at h
+      | true =>
+        simp only [Bool.not_true, Bool.and_false, Bool.false_eq_true, if_false, Except.ok.injEq, Prod.mk.injEq] at h
+        exact Or.inr (Or.inr ⟨rfl, by simp, by rw [← hc]; exact h1, h.1.symm, h.2.symm⟩)
+
+/-- all three alternatives occur -/
+example : render (argEnv (.object .iterable (some [])) false) c0 8 0 = .ok ["<a>", "<z>"] := by decide +kernel
+example : render (argEnv (.object .iterable (some [some 9])) true) c0 8 0 = .ok ["<a>", "<z>"] := by decide +kernel
+example : render (argEnv (.object .iterable (some [some 9, some 2])) false) c0 8 0 = .ok ["<a>", "<two>", "<z>"] := by decide +kernel
+
+/-- `import` / `from … import` take the same kinds of argument (they compile to the same
+    `Include` instruction): the module is the one of the first existing candidate -/
+example : render [ { layout := [.importAs (.object .iterable (some [some 9, some 1])) 8, .emitAttr 8 2, .text "|",
+                                .fromImport (.object .map (some [some 7, some 1])) 4 6, .callVar 6], blocks := [] }, modT ]
+    c0 10 0 = .ok ["b", "|", "<mac>"] := by decide +kernel
+example : render [ { layout := [.importAs (.object .iterable (some [some 9, some 7])) 8], blocks := [] }, modT ]
+    c0 10 0 = .error [.templateNotFound] := by decide +kernel
+
+/-! ## which variables an include / import sees and changes -/
+
+/-- **An include renders the template with the includer's current variables.**  The included
+    template runs on the includer's own frame stack (only the macro-closure slot of the top
+    frame is detached, which no lookup goes through: `load` does not depend on it).  Made
+    concrete for an included template that consists of `{{ v }}`: it prints exactly what a
+    lookup of `v` *at the include tag* finds — frames from the top down (loop variable, block
+    frame, every `set` made so far), then the render context —, formatted in the included
+    template's own auto-escape mode, and leaves the state as it was. -/
+theorem include_sees_includer_variables (env : Env) (ctx : Cfg) (f : Nat) (cur : Option Nat) (disc : Bool)
+    (outer : Nat) (T : Template) (v : Nat) (st : St) (hl : T.layout = [.emitVar v]) (hwf : st.frames.WF)
+    (hd : outer + INCLUDE_COST + st.frames.length ≤ LIMIT) :
+    (∀ c w, load ctx.rootCtx (st.frames.setTopClosure c) w = load ctx.rootCtx st.frames w) ∧
+    includeTemplate (evalImpl env ctx (f + 1)) cur disc outer T st =
+      match emitVarOut ctx disc T.ae (load ctx.rootCtx st.frames v) with
+      | .ok o => .ok (o, st)
+      | .error e => .error (.badInclude :: e) :=
+  ⟨fun c w => load_setTopClosure ctx.rootCtx st.frames c w,
+   includeTemplate_emitVar env ctx f cur disc outer T v st hl hwf hd⟩
+
+/-- the includer's variables as the included template sees them: a `set` made before the tag, the
+    loop variable of the enclosing loop (each iteration its own), a variable of the render
+    context; a `set` made *after* the tag is not visible, a shadowing loop variable wins -/
+def visEnv : Env :=
+  [ { layout := [.setVar 1 "early", .incl (.name 1) false, .setVar 2 "late",
+                 .loop 1 ["i1", "i2"] [.incl (.object .iterable (some [some 9, some 1])) false],
+                 .incl (.name 1) false],
+      blocks := [] },
+    { layout := [.text "<", .emitVar 1, .text "|", .emitVar 2, .text "|", .emitVar 0, .text ">"], blocks := [] } ]
+
+example : render visEnv { rootCtx := [(0, .str "ctx")] } 10 0 =
+    .ok ["<", "early", "|", "|", "ctx", ">",
+         "<", "i1", "|", "late", "|", "ctx", ">", "<", "i2", "|", "late", "|", "ctx", ">",
+         "<", "early", "|", "late", "|", "ctx", ">"] := by decide +kernel
+
+/-- **An include assigns into the includer's current frame only.**  Whatever the included
+    template (and everything it includes, imports or extends) does, a successful include returns
+    the same number of frames, and every frame *below* the current one holds exactly what it
+    held: `set`s of the included template land in the frame the include tag runs in (they are
+    visible to the includer afterwards, and gone when that frame — a loop iteration, a block —
+    ends), never further down. -/
+theorem include_assigns_into_current_frame_only (env : Env) (ctx : Cfg) (fuel : Nat) (henv : EnvOK env)
+    (cur : Option Nat) (disc ign : Bool) (outer : Nat) (a : Arg) (st st' : St) (o : List String)
+    (hwf : st.frames.WF)
+    (h : performInclude env (evalImpl env ctx fuel) cur disc ign outer (choices a) false st = .ok (o, st')) :
+    st'.frames.stack.length = st.frames.stack.length ∧
+      ∀ i, i + 1 < st.frames.stack.length → st'.frames.stack[i]? = st.frames.stack[i]? :=
+  include_frames env ctx fuel henv cur disc ign outer (choices a) false st st' o hwf h
+
+/-- the included template sets `v6`: visible to the includer after the tag; set inside a loop
+    iteration it is gone after the loop -/
+example : render [ { layout := [.incl (.name 1) false, .emitVar 6, .text "|",
+                                .loop 1 ["a"] [.incl (.name 2) false, .emitVar 7], .text "|", .emitVar 7], blocks := [] },
+                   { layout := [.setVar 6 "six"], blocks := [] },
+                   { layout := [.setVar 7 "seven"], blocks := [] } ] c0 10 0
+    = .ok ["six", "|", "seven", "|"] := by decide +kernel
+
+/-- **An import changes nothing in the importer's variables except the name it binds.**
+    `{% import a as v %}` / `{% from a import n as x %}` run the imported template in a *fresh*
+    frame on top of the importer's frames; when that succeeds there is exactly one frame more
+    and *all* of the importer's frames — the current one included — hold exactly what they
+    held.  The statement then drops the fresh frame, binding `v` to the module made of exactly
+    that frame's locals (`dedupKeys (topFrame …)`, the imported template's top-level `set`s and
+    macros: `import_exports_toplevel`) resp. `x` to that frame's value of `n` — nothing of the
+    importer's own variables is in the module, nothing the imported template assigns reaches
+    the importer. -/
+theorem import_leaves_importer_variables (env : Env) (ctx : Cfg) (fuel : Nat) (henv : EnvOK env)
+    (cur : Option Nat) (d0 e0 : Bool) (outer : Nat) (ae : AE) (parent : Option (List Item))
+    (a : Arg) (rest : List Item) (st stI : St) (o1 : List String) (hwf : st.frames.WF)
+    (hpf : pushFails outer st.frames = false) (disc : Bool)
+    (hinc : performInclude env (evalImpl env ctx fuel) cur disc false outer (choices a) false
+              { st with frames := st.frames.push [[]] } = .ok (o1, stI)) :
+    stI.frames.length = st.frames.length + 1 ∧
+    (stI.frames.take st.frames.length).stack = st.frames.stack ∧
+    (disc = false → ∀ v,
+      stepItems ⟨env, ctx, cur, d0, e0, outer, ae⟩ (evalImpl env ctx fuel) parent (.importAs a v :: rest) st =
+        stepItems ⟨env, ctx, cur, d0, e0, outer, ae⟩ (evalImpl env ctx fuel) parent rest
+          { stI with frames := store (stI.frames.take st.frames.length) v (.module (dedupKeys (topFrame stI.frames))) }) ∧
+    (disc = true → ∀ n x,
+      stepItems ⟨env, ctx, cur, d0, e0, outer, ae⟩ (evalImpl env ctx fuel) parent (.fromImport a n x :: rest) st =
+        stepItems ⟨env, ctx, cur, d0, e0, outer, ae⟩ (evalImpl env ctx fuel) parent rest
+          { stI with frames := store (stI.frames.take st.frames.length) x ((lookupVal n (topFrame stI.frames)).getD .undef) }) := by
+  obtain ⟨h1, h2⟩ := import_frames env ctx fuel henv cur disc false outer (choices a) false st stI o1 hwf hinc
+  refine ⟨h1, h2, ?_, ?_⟩
+  · intro hd v
+    subst hd
+    simp only [stepItems, hpf, Bool.false_eq_true, if_false, hinc, andThen_nil]
+  · intro hd n x
+    subst hd
+    simp only [stepItems, hpf, Bool.false_eq_true, if_false, hinc, andThen_nil]
+
+/-- the importer's own `v3` is neither exported nor changed by the module's assignment of `v3`;
+    the module's `v2` does not become a variable of the importer -/
+example : render [ { layout := [.setVar 3 "mine", .importAs (.name 1) 8, .emitVar 3, .text "|", .emitAttr 8 3, .text "|",
+                                .emitVar 2, .text "|", .emitKeys 8], blocks := [] },
+                   { layout := [.setVar 3 "theirs", .setVar 2 "m2"], blocks := [] } ] c0 10 0
+    = .ok ["mine", "|", "theirs", "|", "|", "v2,v3"] := by decide +kernel
+
+/-! ## `super()` outside of blocks, block references in macro bodies -/
+
+/-- `super()` outside of blocks.  In the template that is rendered it is an error (there is no
+    current block).  In an *included* template the engine's `current_block` still names the block
+    the include tag stands in, and `super()` is resolved against the included template's **own**
+    block table (`BlockState::Replace`) — never against the includer's definitions: at the top
+    level of an included template that has not executed an `extends`, every block has at most
+    one definition, so `super()` is the error "no parent block exists", whatever the includer's
+    chain looks like.  (Behind an executed `extends` of the included template the table holds the
+    included chain's definitions; `blocks_refine_spec` covers that case through `specChain`'s
+    `inh`: the recorded finding `super-inherited`.) -/
+theorem super_outside_blocks (rec : Rec) (disc : Bool) (outer : Nat) (ae : AE) (st : St) :
+    performSuper rec none disc outer ae st = .error [.invalidOperation] ∧
+    (∀ (n : Nat) (T : Template),
+      performSuper rec (some n) disc outer ae
+        { st with blocks := prepare T.blocks, depth := fun _ => 0, loaded := [] } = .error [.invalidOperation]) := by
+  refine ⟨rfl, ?_⟩
+  intro n T
+  have hl : (prepare T.blocks n).length ≤ 1 := by
+    simp only [prepare]; cases lookupBlock n T.blocks <;> simp
+  simp only [performSuper]
+  have : ¬ (0 + 1 < (prepare T.blocks n).length) := by omega
+  simp [this]
+
+/-- the includer's block `b0` has a parent definition, the included template calls `super()` at
+    its top level: an error, wrapped in `BadInclude` (not the includer's parent block) -/
+example : render [ { layout := [.extends true 2, .callBlock 0], blocks := [(0, [.text "<c0>", .incl (.name 1) false])] },
+                   { layout := [.text "<inc>", .super], blocks := [] },
+                   { layout := [.callBlock 0], blocks := [(0, [.text "<p0>"])] } ] c0 10 0
+    = .error [.badInclude, .invalidOperation] := by decide +kernel
+
+/-- the recorded finding: the include stands in `b0`, the included template extends a parent, both
+    define `b0`, and `{% set v5 = super() %}` runs behind the `extends` tag — the parent's `b0` is
+    what `super()` yields; driver and specification agree on it and the environment lies in the
+    proven fragment -/
+def superInhEnv : Env :=
+  [ { layout := [.callBlock 0], blocks := [(0, [.text "<T0:b0>", .incl (.name 1) false])] },
+    { layout := [.extends true 2, .setSuper 5, .callBlock 0], blocks := [(0, [.text "(", .emitVar 5, .text ")"])] },
+    { layout := [.text "<T2>", .callBlock 0], blocks := [(0, [.text "<T2:b0>"])] } ]
+
+example : EnvOK superInhEnv := by decide
+example : render superInhEnv c0 10 0 = .ok ["<T0:b0>", "<T2>", "(", "<T2:b0>", ")"] := by decide +kernel
+example : specRender superInhEnv c0 10 0 = .ok ["<T0:b0>", "<T2>", "(", "<T2:b0>", ")"] := by decide +kernel
+
+/-- `{% autoescape %}` blocks nested directly in one another: each `endautoescape` gives the
+    enclosing block's mode back; an include inside them still runs in the included template's
+    own mode.  Inside the fragment of `blocks_refine_spec` and of `rendering_terminates`. -/
+def aeNestEnv : Env :=
+  [ { layout := [.autoesc .html [.emitVar 0, .autoesc .json [.emitVar 0, .autoesc .none [.emitVar 0, .incl (.name 1) false],
+                                                             .emitVar 0], .emitVar 0], .emitVar 0],
+      blocks := [] },
+    { layout := [.text "<", .emitVar 0, .text ">"], blocks := [], ae := .html } ]
+
+example : EnvOK aeNestEnv := by decide
+example : render aeNestEnv { rootCtx := [(0, .str "a<b")] } (renderFuel aeNestEnv) 0 =
+    .ok ["a&lt;b", "\"a<b\"", "a<b", "<", "a&lt;b", ">", "\"a<b\"", "a&lt;b", "a<b"] := by decide +kernel
+
+/-- block references from inside a macro body: a macro call keeps the block table and its
+    cursors (`BlockState::Isolate` restores them afterwards), `current_block` is `None` inside —
+    `self.b1()` renders the most-derived `b1`, `super()` is an error there.  Both lie in the
+    fragment of `blocks_refine_spec`. -/
+def macroBlockEnv : Env :=
+  [ { layout := [.extends true 1, .callBlock 0, .callBlock 1],
+      blocks := [(0, [.text "<c0>", .inMacro 9 1 "a" [.text "[", .callBlock 1, .text "]"]]), (1, [.text "<c1>"])] },
+    { layout := [.text "<p>", .callBlock 0], blocks := [(0, [.text "<p0>"]), (1, [.text "<p1>"])] } ]
+
+example : EnvOK macroBlockEnv := by decide
+example : render macroBlockEnv c0 12 0 = .ok ["<p>", "<c0>", "[", "<c1>", "]"] := by decide +kernel
+example : render [ { layout := [.callBlock 0], blocks := [(0, [.inMacro 9 1 "a" [.super]])] } ] c0 12 0
+    = .error [.invalidOperation] := by decide +kernel
 
 end MJ.C06
